@@ -7,6 +7,7 @@ pub mod codec;
 pub mod huffman;
 pub mod index;
 pub mod laws;
+pub mod order;
 pub mod stack;
 
 pub fn replay(property: &str, engine: &str, case: &Value) -> Result<(), String> {
@@ -15,6 +16,7 @@ pub fn replay(property: &str, engine: &str, case: &Value) -> Result<(), String> 
         "huffman" => huffman::replay(case),
         "codec" => codec::replay(case),
         "laws" => laws::replay(case),
+        "order" => order::replay(case),
         "alloc" | "alloc-log" | "alloc-stack" => alloc::replay(engine, case),
         "index" => index::replay(case),
         _ => Err(format!("unknown engine {engine:?} in replay file")),
